@@ -20,20 +20,28 @@ type Iter struct {
 	keys []reflect.Value
 	i    int
 	k, v reflect.Value
+	// grow is set by the simulator: called when the keys are used up, it may append
+	// entries that were created during the iteration ("may be produced during the
+	// iteration or may be skipped" - the simulator's PRNG decides) and report true.
+	grow func(it *Iter) bool
 }
 
 // Next advances to the next live entry.
 func (it *Iter) Next() bool {
-	for it.i < len(it.keys) {
-		k := it.keys[it.i]
-		it.i++
-		v := it.m.MapIndex(k)
-		if v.IsValid() {
-			it.k, it.v = k, v
-			return true
+	for {
+		for it.i < len(it.keys) {
+			k := it.keys[it.i]
+			it.i++
+			v := it.m.MapIndex(k)
+			if v.IsValid() {
+				it.k, it.v = k, v
+				return true
+			}
+		}
+		if it.grow == nil || !it.grow(it) {
+			return false
 		}
 	}
-	return false
 }
 
 // Key returns the current key (nil interface for a nil interface key).
